@@ -156,6 +156,11 @@ func Gen(t *rapid.T) *Case {
 			}
 			if is32 {
 				x = float64(float32(x))
+			} else if rapid.Bool().Draw(t, "f32exact") {
+				// a float64 input that happens to be exactly representable in float32, together with
+				// its two float64 neighbours: the code must not depend on how "short" the input is
+				x = float64(float32(x))
+				c.Xs = append(c.Xs, kit.FV(math.Nextafter(x, 2)), kit.FV(math.Nextafter(x, -2)))
 			}
 		} else {
 			x = kit.GenFloat(t, is32, Bounds(e), false)
